@@ -118,6 +118,25 @@ func TestC09(t *testing.T) {
 			}
 		}
 
+		// before the target account comes into being, a node may have estimated the gas of transactions that
+		// create an account at the address it is going to have (simulations: executed in check mode, thrown away)
+		simulatedEarlier := 0
+		if rapid.IntRange(0, 2).Draw(t, "simulatedEarlier") == 0 {
+			peek := FreshAddr(v.fresh + 1)
+			for _, m := range []sdk.Msg{
+				&vestingtypes.MsgSendToVestingAccount{Owner: owner.String(), ToAddress: peek.String(), VestingPoolName: "p", Amount: sdk.NewInt(10), RestartVesting: true},
+				&vestingtypes.MsgSendToVestingAccount{Owner: owner.String(), ToAddress: peek.String(), VestingPoolName: "p", Amount: sdk.NewInt(10), RestartVesting: false},
+				&vestingtypes.MsgCreateVestingAccount{FromAddress: KeyAcc(2).Addr.String(), ToAddress: peek.String(), Amount: sdk.NewCoins(sdk.NewInt64Coin(Denom, 10)), StartTime: nowS, EndTime: nowS + 1000},
+				&vestingtypes.MsgCreateVestingAccount{FromAddress: owner.String(), ToAddress: peek.String(), Amount: sdk.NewCoins(sdk.NewInt64Coin(Denom, 10)), StartTime: nowS, EndTime: nowS + 1000},
+				&vestingtypes.MsgSplitVesting{FromAddress: vsender.String(), ToAddress: peek.String(), Amount: sdk.NewCoins(sdk.NewInt64Coin("uatom", 1))},
+				&vestingtypes.MsgMoveAvailableVesting{FromAddress: vsender.String(), ToAddress: peek.String()},
+				&vestingtypes.MsgMoveAvailableVestingByDenoms{FromAddress: vsender.String(), ToAddress: peek.String(), Denoms: []string{"uatom"}},
+			} {
+				if succeeded, _ := v.SimulateMsg(m); succeeded {
+					simulatedEarlier++
+				}
+			}
+		}
 		// target address state
 		var target sdk.AccAddress
 		tk := rapid.IntRange(0, 10).Draw(t, "targetState")
@@ -272,6 +291,6 @@ func TestC09(t *testing.T) {
 		}
 		nt := tk != 0
 		st.Case(nt, map[string]interface{}{"target": targetKinds[tk], "msg": fmt.Sprintf("%T", msg), "signer": signerIdx, "m": fmt.Sprint(msg)},
-			append(append(v.TxClasses(), "target_"+targetKinds[tk], fmt.Sprintf("msg_%T", msg), fmt.Sprintf("accepted_%v", res.OK()), fmt.Sprintf("panic_%v", res.Panic != nil)), fmt.Sprintf("sender_%s_splitlike_accepted_%v", []string{"not_staking", "delegated_vesting", "delegated_free"}[senderDelegation], splitLike && res.OK()))...)
+			append(append(append(v.TxClasses(), map[bool][]string{true: {"creation_at_the_target_address_simulated_before_the_target_existed"}}[simulatedEarlier > 0 && (tk == 3 || tk >= 6)]...), "target_"+targetKinds[tk], fmt.Sprintf("msg_%T", msg), fmt.Sprintf("accepted_%v", res.OK()), fmt.Sprintf("panic_%v", res.Panic != nil)), fmt.Sprintf("sender_%s_splitlike_accepted_%v", []string{"not_staking", "delegated_vesting", "delegated_free"}[senderDelegation], splitLike && res.OK()))...)
 	})
 }
